@@ -65,8 +65,44 @@ func (storeRecMon) OnEvent(c *eng.Ctx, ms eng.MState, ev *eng.Event) eng.MState 
 			n.other = "write to " + ev.Addr.Pretty()
 			return n
 		}
-		if len(n.stores) < 6 {
-			n.stores = append(n.stores, fieldStore{name, ev.Val, posStr(ev.Pos)})
+		// a struct-valued store is the store of each of its leaves (a literal that sets one
+		// field writes the zero value to the others); a later store to a leaf replaces an earlier one
+		var put func(name string, t types.Type, val *eng.Term)
+		put = func(name string, t types.Type, val *eng.Term) {
+			if st, ok := t.Underlying().(*types.Struct); ok && (val.K == eng.KStruct || val.K == eng.KZero) {
+				tn := "?"
+				if nt, ok := t.(*types.Named); ok {
+					tn = nt.Obj().Name()
+				}
+				for i := 0; i < st.NumFields(); i++ {
+					var fv *eng.Term
+					if val.K == eng.KStruct && i < len(val.A) {
+						fv = val.A[i]
+					} else {
+						fv = eng.ZeroOf(st.Field(i).Type())
+					}
+					put(tn+"."+st.Field(i).Name(), st.Field(i).Type(), fv)
+				}
+				return
+			}
+			for i := range n.stores {
+				if n.stores[i].field == name {
+					n.stores[i] = fieldStore{name, val, posStr(ev.Pos)}
+					return
+				}
+			}
+			if len(n.stores) < 8 {
+				n.stores = append(n.stores, fieldStore{name, val, posStr(ev.Pos)})
+			}
+		}
+		var vt types.Type
+		if st != nil {
+			vt = st.Val.Type()
+		}
+		if vt != nil {
+			put(name, vt, ev.Val)
+		} else {
+			put(name, types.Typ[types.Invalid], ev.Val)
 		}
 		return n
 	case "mapupdate", "mapdelete", "send", "go":
@@ -215,6 +251,7 @@ func AnalyzeConfig(p *load.Program, r *Roles, depth int) *UnitResult {
 		sigCache[w] = s
 		return s
 	}
+	leaves := getterLeaves(p, r)
 	settings := []string{"MaxRetries", "Wait", "BatchConcurrency", "BatchErrorHandling", "PrepFunc", "ExecFunc", "PostFunc", "ExecFallbackFunc", "PrepFuncAny", "ExecFuncAny", "PostFuncAny"}
 	classFields := map[string]map[string]bool{"NodeOption": {}, "CustomNodeOption": {}}
 	nForms := 0
@@ -334,9 +371,28 @@ func AnalyzeConfig(p *load.Program, r *Roles, depth int) *UnitResult {
 		}
 		// the properties stated in terms of "the configured value" count the setter of that value
 		alias := map[string]string{"Wait": ",C20.R5", "MaxRetries": ",C02.R6", "BatchConcurrency": ",C08.R7", "BatchErrorHandling": ",C07.R6,C09.R5"}[S]
+		ownLeaf := leaves["Get"+S]
 		for _, f := range forms {
 			nForms++
 			col.Check("C19.R2"+alias, f.label+":single-field", f.sum.problem == "", p.Position(0), f.sum.problem+" "+f.sum.String(), nil)
+			if ownLeaf.key != "" {
+				// the setter writes the very location its getter reads; a write to a location another
+				// getter reads is that other setting's problem too
+				wrote := false
+				for fld := range f.sum.fields {
+					if fld == ownLeaf.key {
+						wrote = true
+						continue
+					}
+					for g, lf := range leaves {
+						if lf.key == fld {
+							other := map[string]string{"GetWait": ",C20.R5", "GetMaxRetries": ",C02.R6", "GetBatchConcurrency": ",C08.R7", "GetBatchErrorHandling": ",C07.R6,C09.R5"}[g]
+							col.Check("C19.R2"+other, f.label+":foreign-write:"+strings.TrimPrefix(g, "Get"), false, p.Position(0), "setting "+S+" also writes "+fld+", the location "+g+" reads: an earlier "+strings.TrimPrefix(g, "Get")+" setting is lost; it does "+f.sum.String(), nil)
+						}
+					}
+				}
+				col.Check("C19.R5"+alias, f.label+":getter-leaf", wrote, p.Position(0), "the setter does not write "+ownLeaf.key+", the location Get"+S+" reads; it does "+f.sum.String(), nil)
+			}
 			// the value stored is the argument itself, whatever the rest of the configuration is
 			// (mode setters store constants chosen by the argument: C19.R6 below)
 			if S != "BatchErrorHandling" {
@@ -715,24 +771,16 @@ func checkGetters(p *load.Program, r *Roles, col *Col, res *UnitResult, run func
 	if r.BaseNode == nil {
 		return
 	}
-	st, _ := r.BaseNode.Underlying().(*types.Struct)
-	fieldIdx := func(name string) int {
-		for i := 0; st != nil && i < st.NumFields(); i++ {
-			if st.Field(i).Name() == name {
-				return i
-			}
-		}
-		return -1
-	}
-	for g, f := range map[string]string{"GetMaxRetries": "maxRetries", "GetWait": "wait", "GetBatchConcurrency": "batchConcurrency", "GetBatchErrorHandling": "batchErrorHandling"} {
+	leaves := getterLeaves(p, r)
+	for _, g := range []string{"GetMaxRetries", "GetWait", "GetBatchConcurrency", "GetBatchErrorHandling"} {
 		fn := p.DeclaredMethod("BaseNode", g)
-		idx := fieldIdx(f)
-		if fn == nil || idx < 0 {
-			col.Unproven("C19.R5", "BaseNode."+g, p.Position(0), "getter or its field not found", nil)
+		lf := leaves[g]
+		if fn == nil || lf.key == "" {
+			col.Unproven("C19.R5", "BaseNode."+g, p.Position(0), "getter not found, or it does not return one field of the node on its paths", nil)
 			continue
 		}
 		e := run(fn, nil, Mode{}, &unlockMon{col: col, label: "BaseNode." + g})
-		field := eng.Load(eng.FieldAddr(eng.Param(0, fn.Params[0].Name()), idx))
+		field := lf.load(eng.Param(0, fn.Params[0].Name()))
 		for _, rt := range e.Returns {
 			if rt.Panic || len(rt.Vals) != 1 {
 				col.Check("C19.R5", "BaseNode."+g+":identity", false, rt.Pos, "getter panics", nil)
@@ -916,4 +964,108 @@ func (m *unlockMon) OnEvent(c *eng.Ctx, ms eng.MState, ev *eng.Event) eng.MState
 		}
 	}
 	return s
+}
+
+// getterLeaf is the location a configuration getter reads: the path of field indexes
+// from the BaseNode and its name "<struct type>.<field>" (the innermost struct).
+type getterLeaf struct {
+	path []int
+	key  string
+}
+
+func (l getterLeaf) load(recv *eng.Term) *eng.Term {
+	a := recv
+	for _, i := range l.path {
+		a = eng.FieldAddr(a, i)
+	}
+	return eng.Load(a)
+}
+
+// at reads the leaf out of a constructed BaseNode struct term.
+func (l getterLeaf) at(obj *eng.Term) *eng.Term {
+	v := obj
+	for _, i := range l.path {
+		if v != nil && v.K == eng.KZero && v.T != nil {
+			// an embedded struct left at its zero value
+			if st, ok := v.T.Underlying().(*types.Struct); ok && i < st.NumFields() {
+				v = eng.ZeroOf(st.Field(i).Type())
+				continue
+			}
+		}
+		if v == nil || v.K != eng.KStruct || i >= len(v.A) {
+			return nil
+		}
+		v = v.A[i]
+	}
+	return v
+}
+
+// getterLeaves finds, for each configuration getter of BaseNode, the one location all its
+// non-constant results are loaded from (no field names are assumed).
+func getterLeaves(p *load.Program, r *Roles) map[string]getterLeaf {
+	out := map[string]getterLeaf{}
+	if r.BaseNode == nil {
+		return out
+	}
+	for _, g := range []string{"GetMaxRetries", "GetWait", "GetBatchConcurrency", "GetBatchErrorHandling"} {
+		fn := p.DeclaredMethod("BaseNode", g)
+		if fn == nil || len(fn.Params) != 1 {
+			continue
+		}
+		e := eng.New(eng.Config{Prog: p.Prog, Pkg: p.SSA, Fset: p.Fset, Root: fn, MaxDepth: 4, MaxStates: 5000, Classify: r.Classifier(Mode{}), KeepFacts: true})
+		e.Run()
+		recv := eng.Param(0, fn.Params[0].Name())
+		var leaf *eng.Term
+		ok := true
+		for _, rt := range e.Returns {
+			if rt.Panic || len(rt.Vals) != 1 {
+				continue
+			}
+			v := rt.Vals[0]
+			if v.K == eng.KConst {
+				continue // a documented default
+			}
+			if v.K != eng.KLoad {
+				ok = false
+				continue
+			}
+			if leaf == nil {
+				leaf = v
+			} else if leaf != v {
+				ok = false
+			}
+		}
+		if !ok || leaf == nil {
+			continue
+		}
+		// address -> path of field indexes down from the receiver
+		var path []int
+		a := leaf.A[0]
+		for a.K == eng.KFieldAddr {
+			path = append([]int{int(a.I)}, path...)
+			a = a.A[0]
+		}
+		if a != recv || len(path) == 0 {
+			continue
+		}
+		var t types.Type = r.BaseNode
+		key := ""
+		for _, i := range path {
+			st, isS := t.Underlying().(*types.Struct)
+			if !isS || i >= st.NumFields() {
+				key = ""
+				break
+			}
+			tn := "?"
+			if nt, ok := t.(*types.Named); ok {
+				tn = nt.Obj().Name()
+			}
+			key = tn + "." + st.Field(i).Name()
+			t = st.Field(i).Type()
+		}
+		if key != "" {
+			out[g] = getterLeaf{path: path, key: key}
+		}
+	}
+	return out
 }
